@@ -98,8 +98,8 @@ class OpenAPIResponseResolver(ResponseTypeResolver):
                 if response.status_code == code:
                     return response
 
-        # Other 2xx responses
-        for response in operation.responses:
+        # Other 2xx responses (lowest code first, independent of the order of the spec's `responses` keys)
+        for response in sorted(operation.responses, key=lambda r: r.status_code):
             if response.status_code.startswith("2"):
                 return response
 
@@ -108,8 +108,8 @@ class OpenAPIResponseResolver(ResponseTypeResolver):
             if response.status_code == "default":
                 return response
 
-        # First response as fallback
-        return operation.responses[0] if operation.responses else None
+        # Lowest listed response as fallback (independent of the order of the spec's `responses` keys)
+        return min(operation.responses, key=lambda r: r.status_code) if operation.responses else None
 
     def _get_response_schema(self, response: IRResponse) -> IRSchema | None:
         """Get the schema from a response's content."""
